@@ -18,68 +18,3 @@ theorem opLinked_walkDoc (s : SV) (d : QueryDoc) (evs : List Event) (h : walkDoc
     fun n f hr hf nm dirs p hi => h2 n f hr hf (.spread nm dirs p) hi⟩
 
 end Gql.Validate
-
-section C08
-open Gql Gql.Validate Gql.Validate.Rules
-
-/-- §5.2.3.1, the rule in its own terms — SingleFieldSubscriptions reports nothing iff, for every
-    subscription operation, the root fields collected by `CollectFields` (the specification's
-    `Spec.collectRootFields`) have at most one response key and the FIRST field of every response
-    key is not an introspection field. -/
-theorem C08_SingleFieldSubscriptions_exact (s : Schema) (d : QueryDoc)
-    (hschema : subscriptionRootExact s = true)
-    (hdef : Spec.fragmentSpreadTargetDefined d = true)
-    (htc : ∀ f ∈ d.frags, f.typeCond ≠ []) :
-    validate [singleFieldSubscriptions] s d = .ok [] ↔
-      ∀ op ∈ d.ops, op.op = Spec.kwSubscription → ∀ obj, Spec.rootDef s op.op = some obj →
-        RuleRootOK (Spec.collectRootFields s d obj op.sel) := by
-  obtain ⟨evs, hw⟩ := walkDoc_isSome s.view d
-  unfold singleFieldSubscriptions
-  rw [validate_statelessP_silent s d _ _ evs hw]
-  exact singleFieldSubscriptions_exact s d evs hw (opLinked_walkDoc s.view d evs hw) hschema hdef htc
-
-/-- §5.2.3.1, completeness — a document the specification accepts is not reported -/
-theorem C08_SingleFieldSubscriptions_complete (s : Schema) (d : QueryDoc)
-    (hschema : subscriptionRootExact s = true)
-    (hdef : Spec.fragmentSpreadTargetDefined d = true)
-    (htc : ∀ f ∈ d.frags, f.typeCond ≠ [])
-    (h : Spec.singleRootField s d = true) :
-    validate [singleFieldSubscriptions] s d = .ok [] := by
-  obtain ⟨evs, hw⟩ := walkDoc_isSome s.view d
-  unfold singleFieldSubscriptions
-  rw [validate_statelessP_silent s d _ _ evs hw]
-  exact singleFieldSubscriptions_of_spec s d evs hw (opLinked_walkDoc s.view d evs hw) hschema hdef htc h
-
-/-- §5.2.3.1 — SingleFieldSubscriptions reports nothing iff the specification predicate holds, for
-    a schema whose subscription root is exact (`subscriptionRootExact`), a document whose spreads
-    are defined and whose fragment definitions have a type condition, in which every subscription
-    selects at least one root field and equal response keys mean equal field names -/
-theorem C08_SingleFieldSubscriptions (s : Schema) (d : QueryDoc)
-    (hschema : subscriptionRootExact s = true)
-    (hdef : Spec.fragmentSpreadTargetDefined d = true)
-    (htc : ∀ f ∈ d.frags, f.typeCond ≠ [])
-    (hne : subscriptionsSelectRoot s d = true)
-    (hcons : rootKeysConsistent s d = true) :
-    validate [singleFieldSubscriptions] s d = .ok [] ↔ Spec.singleRootField s d = true := by
-  obtain ⟨evs, hw⟩ := walkDoc_isSome s.view d
-  unfold singleFieldSubscriptions
-  rw [validate_statelessP_silent s d _ _ evs hw]
-  exact singleFieldSubscriptions_iff s d evs hw (opLinked_walkDoc s.view d evs hw) hschema hdef htc hne hcons
-
-/-- the same for a schema with the loader's invariants (`C07_loaded_closed`, `C07_relations_exact`)
-    whose root operation types are object types (`Spec.rootTypesAreObjects`: not enforced by the loader) -/
-theorem C08_SingleFieldSubscriptions_loaded (s : Schema) (d : QueryDoc)
-    (hc : Gql.Spec.Closed s) (hr : Gql.Spec.RelationsExact s) (hroots : Gql.Spec.rootTypesAreObjects s = true)
-    (hdef : Spec.fragmentSpreadTargetDefined d = true)
-    (htc : ∀ f ∈ d.frags, f.typeCond ≠ [])
-    (hne : subscriptionsSelectRoot s d = true)
-    (hcons : rootKeysConsistent s d = true) :
-    validate [singleFieldSubscriptions] s d = .ok [] ↔ Spec.singleRootField s d = true :=
-  C08_SingleFieldSubscriptions s d (subscriptionRootExact_of_closed s hc hr hroots) hdef htc hne hcons
-
-#print axioms C08_SingleFieldSubscriptions_exact
-#print axioms C08_SingleFieldSubscriptions_complete
-#print axioms C08_SingleFieldSubscriptions
-#print axioms C08_SingleFieldSubscriptions_loaded
-
-end C08
